@@ -2,7 +2,8 @@ package main
 
 // Suite c13 — rolling back a commit restores the checkpoint exactly (op language and oracles: wmptrun.go).
 //
-// build; commit; [gc]; saveroot <copy level>; changes (new keys, changed values, unchanged re-writes, delete and
+// build; commit; [gc]; saveroot <copy level> (or cproot: the copy without SaveRoot, for RollbackTrie); changes — or the
+// deletion of every key, so that the commit has nothing to write — (new keys, changed values, unchanged re-writes, delete and
 // re-add of identical content, deletes); commit <lvl> (also: followed by a second, clean commit; or Commit called twice
 // before the first batch is committed); [one gc]; rollback | rollbacktrie; then the checkpoint root,
 // weight, every owner/value/proof on a reopened trie, and the absence of every storage key that only the rolled-back
@@ -43,10 +44,28 @@ func genC13(r *rand.Rand, tier string, idx int) []string {
 		for k, v := range g.live {
 			cpLive[k] = v
 		}
-		g.emit("saveroot %d", r.Intn(7)-2)
-		nc := 1 + r.Intn(5)
-		for k := 0; k < nc; k++ {
-			g.mutate()
+		useTrie := r.Intn(2) == 0
+		if useTrie && r.Intn(3) == 0 {
+			g.emit("cproot %d", r.Intn(8)-3) // RollbackTrie needs only the copy: no SaveRoot (the "created" list is not reset)
+		} else {
+			g.emit("saveroot %d", r.Intn(8)-3)
+		}
+		if r.Intn(5) == 0 {
+			// empty the trie: the root becomes the (clean) empty node and the commit below has nothing to write
+			for _, i := range g.liveKeys() {
+				if r.Intn(2) == 0 {
+					g.emit("updel %x", g.pool[i])
+				} else {
+					g.emit("del %x", g.pool[i])
+				}
+				delete(g.live, g.pool[i])
+				g.dirty = true
+			}
+		} else {
+			nc := 1 + r.Intn(5)
+			for k := 0; k < nc; k++ {
+				g.mutate()
+			}
 		}
 		switch lvl := r.Intn(8) - 1; r.Intn(4) {
 		case 0:
@@ -60,7 +79,7 @@ func genC13(r *rand.Rand, tier string, idx int) []string {
 		if r.Intn(3) == 0 {
 			g.emit("gc")
 		}
-		if r.Intn(2) == 0 {
+		if !useTrie {
 			g.emit("rollback")
 		} else {
 			g.emit("rollbacktrie")
@@ -70,6 +89,19 @@ func genC13(r *rand.Rand, tier string, idx int) []string {
 			g.commitd[k] = v
 		}
 		g.emit("owners")
+		if r.Intn(2) == 0 {
+			// the rolled-back trie must be usable: an update of a new key, the root, a path export and its import, the delete
+			probe := make([]byte, 32)
+			r.Read(probe)
+			pv := []byte{byte(r.Intn(256)), 0xfe, byte(rd)}
+			g.emit("upd %x %x %d", probe, pv, wvalWeight(pv))
+			g.emit("root")
+			g.emit("getpath %x", probe)
+			g.emit("import")
+			g.emit("del %x", probe)
+			g.emit("root")
+			g.dirty = true
+		}
 		// life goes on
 		for k := r.Intn(4); k > 0; k-- {
 			g.mutate()
